@@ -13,6 +13,7 @@ CONSTANTS
   WithErrors = TRUE
   WithIdle = FALSE
   WithSleep = FALSE
+  TimeoutTypes = {}
   KeepLog = FALSE
 INVARIANT TypeOK
 INVARIANT LockOK
